@@ -113,10 +113,10 @@ Proof.
     destruct (IH st1 st' H2) as [E2 [evs2 [L2 V2]]].
     destruct (hdr_step_logs cv softly cur st s st1 H1) as [evs1 [L1 V1]].
     split.
-    + intros t. rewrite (E2 t), (hdr_step_extras cv softly cur st s st1 t H1), decl_names_cons, app_assoc.
-      reflexivity.
+    + intros t. rewrite (E2 t), (hdr_step_extras cv softly cur st s st1 t H1), (decl_names_cons s hs t).
+      rewrite <- app_assoc. reflexivity.
     + exists (evs1 ++ evs2). split; [rewrite L2, L1, app_assoc; reflexivity|].
-      intros Hcv v o e Hv Po Pe U. rewrite version_values_cons in Hv. apply in_app_or in Hv.
+      intros Hcv v o e Hv Po Pe U. rewrite (version_values_cons s hs) in Hv. apply in_app_or in Hv.
       destruct Hv as [Hv|Hv].
       * destruct (V1 Hcv v o e Hv Po Pe U) as [A B]. split; [exact A|]. apply in_or_app. left. exact B.
       * destruct (V2 Hcv v o e Hv Po Pe U) as [A B]. split; [exact A|]. apply in_or_app. right. exact B.
@@ -140,10 +140,10 @@ Proof.
   intros H Hcv Hv Po Pe U. unfold check_header in H. apply bind_ok in H. destruct H as [st1 [H1 H2]].
   destruct (hdr_fold_spec cv softly _ hs hs_init st1 H1) as [_ [evs [L V]]].
   destruct (V Hcv v o e Hv Po Pe U) as [A B]. split; [exact A|].
-  cbn [hs_logs hs_init app] in L.
+  cbn [hs_logs hs_init app] in L. rewrite <- L in B. clear L V.
   destruct (missing_of c (hs_extras st1)) as [|m ms].
-  - inversion H2; subst. rewrite L. exact B.
-  - destruct softly; [|discriminate]. inversion H2; subst. cbn [hs_logs]. rewrite L.
+  - inversion H2; subst. exact B.
+  - destruct softly; [|discriminate]. inversion H2; subst. cbn [hs_logs].
     apply in_or_app. left. exact B.
 Qed.
 
@@ -297,4 +297,34 @@ Proof.
   unfold holds_missing_soft. destruct (missing_spec c hs) as [|m ms]; [left; reflexivity|].
   intros H. right. apply existsb_exists in H. destruct H as [e [I H]].
   destruct e; try discriminate. exists names. split; [exact I|]. apply subset_zs_spec. exact H.
+Qed.
+
+(* the report of undeclared extras depends on the declaration lines only through
+   the set of names they declare (so not on their order or repetition) *)
+Lemma mem_str_iff k l l' : (In k l <-> In k l') -> mem_str k l = mem_str k l'.
+Proof.
+  intros H. destruct (mem_str k l) eqn:A, (mem_str k l') eqn:B; try reflexivity.
+  - assert (In k l) as I.
+    { clear -A. induction l as [|x l IH]; cbn [mem_str] in A; [discriminate|].
+      apply orb_true_iff in A. destruct A as [A|A]; [left; apply str_eqb_eq; exact A|right; apply IH; exact A]. }
+    apply H in I. exfalso. clear -B I.
+    induction l' as [|x l IH]; [contradiction|]. cbn [mem_str] in B. apply orb_false_iff in B. destruct B as [B1 B2].
+    destruct I as [I|I]; [subst; rewrite str_eqb_refl in B1; discriminate|apply IH; assumption].
+  - assert (In k l') as I.
+    { clear -B. induction l' as [|x l IH]; cbn [mem_str] in B; [discriminate|].
+      apply orb_true_iff in B. destruct B as [B|B]; [left; apply str_eqb_eq; exact B|right; apply IH; exact B]. }
+    apply H in I. exfalso. clear -A I.
+    induction l as [|x l IH]; [contradiction|]. cbn [mem_str] in A. apply orb_false_iff in A. destruct A as [A1 A2].
+    destruct I as [I|I]; [subst; rewrite str_eqb_refl in A1; discriminate|apply IH; assumption].
+Qed.
+
+Theorem missing_depends_on_declared_set c hs hs' :
+  (forall t n, In n (decl_names hs t) <-> In n (decl_names hs' t)) ->
+  missing_spec c hs = missing_spec c hs'.
+Proof.
+  intros H. unfold missing_spec, type_letters. cbn [flat_map].
+  assert (E : forall t, filter (fun n => negb (mem_str n (decl_names hs t))) (dedup_str (extras_order (cls_of c t)))
+                      = filter (fun n => negb (mem_str n (decl_names hs' t))) (dedup_str (extras_order (cls_of c t)))).
+  { intros t. apply filter_ext. intros n. rewrite (mem_str_iff n _ _ (H t n)). reflexivity. }
+  rewrite (E cH), (E cV), (E cR). reflexivity.
 Qed.
